@@ -16,6 +16,7 @@ EXPLANATION = (
     "each timestamp, correction field and asymmetry. MEAS-5: no value passes through floating point except the "
     "literal divisor."
     ' MEAS-9 (shared with C10 TX-3): the sequence-id generator returns the current value and advances by wrapping_add(1).'
+    " MEAS-10 (= C07 NI-6): the parent the handlers filter on follows the BMCA's choice as a full PortIdentity. MEAS-11: the daemon converts the configured delay asymmetry with Duration::from_nanos."
 )
 NOT_DECIDED = ("numeric exactness of the fixed-point operations to sub-nanosecond (C16 decides the scale clauses); "
                "that the compared ids are the right ones at run time")
